@@ -271,6 +271,52 @@ pub fn check_big(b: &BigDesc, st: &mut Stats) -> Check {
     })
 }
 
+/// Dense sweeps: every array rank 1..=255, every parameter count 0..=300 and every class-name length 1..=300 —
+/// small integers are cheap to enumerate completely, and "boundary values" only cover the boundaries one thought of.
+#[derive(Clone, Debug, Serialize, Deserialize)]
+pub struct SweepChunk {
+    /// 0 = array ranks, 1 = parameter counts, 2 = name lengths
+    pub kind: u8,
+    pub from: usize,
+    pub to: usize,
+}
+
+pub fn check_sweep(c: &SweepChunk, st: &mut Stats) -> Check {
+    for v in c.from..c.to {
+        match c.kind {
+            0 => {
+                let bytes = FIXED_MAPPING.as_bytes();
+                let m = mapper(bytes, false)?;
+                let buf = write_cache(bytes)?;
+                let cache = parse_cache(&buf)?;
+                let rs: [&dyn Retracer; 2] = [&m, &cache];
+                let table: Vec<(&str, &str)> = vec![("a.a", "com.example.A"), ("x.Long", "org.Long2"), ("I", "com.example.Iface"), ("é.ü", "ü.Ö"), ("Lib", "Lib2")];
+                let lookup = |c: &str| table.iter().find(|(k, _)| *k == c).map(|(_, v)| v.to_string());
+                let r = v as u8;
+                let d = Desc {
+                    params: vec![Ty::Array(r, Box::new(Ty::Prim('J'))), Ty::Prim('I'), Ty::Array(r, Box::new(Ty::Obj("a/a".into()))), Ty::Array(r, Box::new(Ty::Obj("zz/U".into())))],
+                    ret: Some(Ty::Array(r, Box::new(Ty::Obj("x/Long".into())))),
+                };
+                st.class("sweep: every array rank 1..=255");
+                check_desc(&rs, &lookup, &d, false, st).map_err(|mut f| {
+                    f.msg = crate::engine::truncate(&f.msg, 900);
+                    f.detail = json!({"array rank": v});
+                    f
+                })?;
+            }
+            1 => {
+                st.class("sweep: every parameter count 0..=300");
+                check_big(&BigDesc { n_params: v, dims: 1, name_len: 5, ret_obj: v % 2 == 0 }, st)?;
+            }
+            _ => {
+                st.class("sweep: every class-name length 1..=300");
+                check_big(&BigDesc { n_params: 3, dims: 2, name_len: v, ret_obj: true }, st)?;
+            }
+        }
+    }
+    Ok(())
+}
+
 /// Mass stage: very many *distinct* valid descriptors against ONE long-lived mapper and cache (any memo keyed by a
 /// lossy digest of the signature needs many distinct keys before two of them collide).
 #[derive(Clone, Debug, Serialize, Deserialize)]
@@ -407,6 +453,18 @@ pub fn run(ctx: &Ctx) -> Report {
         }
     }
     rep.run_enum("big", &bigs, check_big);
+    let mut sweeps = Vec::new();
+    for from in (1..256).step_by(16) {
+        sweeps.push(SweepChunk { kind: 0, from, to: (from + 16).min(256) });
+    }
+    for from in (0..301).step_by(25) {
+        sweeps.push(SweepChunk { kind: 1, from, to: (from + 25).min(301) });
+    }
+    for from in (1..301).step_by(25) {
+        sweeps.push(SweepChunk { kind: 2, from, to: (from + 25).min(301) });
+    }
+    rep.run_enum("sweep", &sweeps, check_sweep);
+    rep.stats.exhaustive.push("every array rank 1..=255, parameter count 0..=300, class-name length 1..=300 (one descriptor shape each)".into());
     // descriptors over mappings with dozens to hundreds of classes whose names collide and repeat (the class table
     // the descriptor renderer looks names up in is then built from re-listed blocks)
     let max = ctx.tier.pick(80, 300);
@@ -425,6 +483,7 @@ pub fn replay(stage: &str, case: &Value) -> Check {
     match stage {
         "ast" | "wide" => check_case(&serde_json::from_value(case.clone()).map_err(|e| Fail::new("harness-replay", e.to_string()))?, &mut st),
         "big" => check_big(&serde_json::from_value(case.clone()).map_err(|e| Fail::new("harness-replay", e.to_string()))?, &mut st),
+        "sweep" => check_sweep(&serde_json::from_value(case.clone()).map_err(|e| Fail::new("harness-replay", e.to_string()))?, &mut st),
         "mass" => check_mass(&serde_json::from_value(case.clone()).map_err(|e| Fail::new("harness-replay", e.to_string()))?, &mut st),
         "exhaustive" => check_exhaustive(&ExhaustiveChunk { ret: case["ret"].as_u64().unwrap_or(0) as usize }, &mut st),
         _ => Err(Fail::new("harness-replay", format!("unknown stage {stage}"))),
